@@ -3,7 +3,7 @@
 from hypothesis import strategies as st
 
 from tv.core import Result
-from tv.cyc import Harness, step
+from tv.cyc import Harness, draw_second, second_fold, second_request, step
 from tv.queues import capped_history, check_accept
 
 ID = "C17"
@@ -45,7 +45,8 @@ def strategy(draw, tier="quick"):
     methods = {"read": [], "peek": [], "write": [1 << w for w in widths], "clear": []}
     hi = 60 if tier == "quick" else 200
     hist = draw(capped_history(methods, 5, hi, caps={"clear": 3}, profiles=PROFILES))
-    return {"kind": kind, "widths": widths, "history": hist}
+    second, mask = draw_second(draw, ["read", "write"])
+    return {"kind": kind, "widths": widths, "history": hist, "second": second, "second_mask": mask}
 
 
 def run_case(case) -> Result:
@@ -55,7 +56,10 @@ def run_case(case) -> Result:
     fwd = kind == "Forwarder"
     layout = [(f"f{i}", w) for i, w in enumerate(widths)]
     res = Result(labels=[kind])
-    h = Harness(lambda: (Forwarder if fwd else Pipe)(layout))
+    second = case.get("second")
+    h = Harness(lambda: (Forwarder if fwd else Pipe)(layout), second_callers=(second,) if second else ())
+    if second:
+        res.labels.append("two_callers_of_" + second)
     names = ["read", "peek", "write", "clear"]
     flags = dict(
         coupling=False,
@@ -68,7 +72,7 @@ def run_case(case) -> Result:
     )
 
     async def tb(ctx):
-        ios = h.ios(names)
+        ios = h.ios(names + ([second + "_b"] if second else []))
         slot = None  # (value, cycle written) or None
         pending = []  # independent stream oracle: accepted writes not yet delivered
         for cyc, rec in enumerate(case["history"]):
@@ -78,8 +82,12 @@ def run_case(case) -> Result:
                 if a is None:
                     continue
                 reqs[n] = {f"f{i}": v for i, v in enumerate(a)} if n == "write" else {}
+            second_request(case, reqs, cyc)
             results, _ = await step(ctx, ios, reqs)
             res.stats["cycles"] = res.stats.get("cycles", 0) + 1
+            msg = second_fold(case, reqs, results)
+            if msg:
+                return res.fail(f"cycle {cyc}: {msg}")
             full = slot is not None
             r = results["read"] is not None
             p = results["peek"] is not None
